@@ -38,13 +38,28 @@ def canon(st):
                              key=lambda x: (x['a0'], x['a1'])), sort_keys=True)
 
 
+# payloads: the model names a packet's data by a small integer d; the real payload of some of them is chosen to look like something else
+# (a command word, nothing at all): the store must treat a payload as opaque
+SPECIAL = {2: b'CLSE', 3: b'', 4: b'OKAY', 5: b'WRTE', 6: b'\x00' * 4}
+UNSPECIAL = {v: k for k, v in SPECIAL.items()}
+
+
+def enc(d):
+    return SPECIAL.get(d, str(d).encode())
+
+
+def dec(b):
+    b = bytes(b)
+    return UNSPECIAL[b] if b in UNSPECIAL else int(b)
+
+
 def project(store):
     out = []
     for a1, m in store._dict.items():
         for a0, q in m.items():
             items = list(q._queue)
             if items:
-                out.append({'a0': a0, 'a1': a1, 'q': [[c.decode(), int(d)] for c, d in items]})
+                out.append({'a0': a0, 'a1': a1, 'q': [[c.decode(), dec(d)] for c, d in items]})
     return out
 
 
@@ -60,7 +75,7 @@ def apply_op(store, op):
     """Apply the model operation to the real store; returns the observed result in model terms."""
     k = op['op']
     if k == 'put':
-        store.put(op['a0'], op['a1'], op['c'].encode(), str(op['d']).encode())
+        store.put(op['a0'], op['a1'], op['c'].encode(), enc(op['d']))
         return None
     if k == 'find':
         r = store.find(pat(op['a0']), pat(op['a1']))
@@ -70,7 +85,7 @@ def apply_op(store, op):
         return list(r) if r else []
     if k == 'get':
         c, a0, a1, d = store.get(pat(op['a0']), pat(op['a1']))
-        return dict(res=[a0, a1], c=c.decode(), d=int(d))
+        return dict(res=[a0, a1], c=c.decode(), d=dec(d))
     if k == 'clear':
         store.clear(op['a0'], op['a1'])
         return None
@@ -190,7 +205,7 @@ def random_traces(ctx, n, length, ids, rng, idmap=None):
                 c = rng.choice(cmds)
                 cur = [x for x in project(s) if x['a0'] == idmap(a0) and x['a1'] == idmap(a1)]
                 d = (cur[0]['q'][-1][1] if cur else 0) + 1
-                s.put(idmap(a0), idmap(a1), c.encode(), str(d).encode())
+                s.put(idmap(a0), idmap(a1), c.encode(), enc(d))
                 ev = dict(op='put', a0=a0, a1=a1, c=c, d=d)
             elif kind in ('find', 'findz'):
                 r = s.find(R(p0), R(p1)) if kind == 'find' else s.find_allow_zeros(R(p0), R(p1))
@@ -199,7 +214,7 @@ def random_traces(ctx, n, length, ids, rng, idmap=None):
                 if not s.find(R(p0), R(p1)):
                     continue
                 c, r0, r1, d = s.get(R(p0), R(p1))
-                ev = dict(op='get', a0=p0, a1=p1, res=[inv[r0], inv[r1]], c=c.decode(), d=int(d))
+                ev = dict(op='get', a0=p0, a1=p1, res=[inv[r0], inv[r1]], c=c.decode(), d=dec(d))
             elif kind == 'clear':
                 s.clear(idmap(a0), idmap(a1))
                 ev = dict(op='clear', a0=a0, a1=a1)
@@ -224,7 +239,7 @@ def deep_trace(depth):
     def proj():
         return [{'a0': x['a0'], 'a1': x['a1'], 'q': [{'c': c, 'd': d} for c, d in x['q']]} for x in project(s)]
     for d in range(1, depth + 1):
-        s.put(1, 2, b'WRTE', str(d).encode())
+        s.put(1, 2, b'WRTE', enc(d))
         ev = dict(op='put', a0=1, a1=2, c='WRTE', d=d)
         if d % 50 == 0 or d == depth:
             ev['st'] = proj()
@@ -240,7 +255,7 @@ def deep_trace(depth):
         except Exception as e:  # noqa
             tr.append(dict(op='raised', what='get(1, 2) with %d packets still pending in the model: %r' % (depth - d + 1, e)))
             break
-        ev = dict(op='get', a0=1, a1=2, res=[a0, a1], c=c.decode(), d=int(dd))
+        ev = dict(op='get', a0=1, a1=2, res=[a0, a1], c=c.decode(), d=dec(dd))
         if d % max(25, depth // 20) == 0 or d > depth - 3:
             ev['st'] = proj()
         else:
@@ -249,9 +264,37 @@ def deep_trace(depth):
     return tr
 
 
-def validate(ctx, traces, ids, label, expect_fail=False):
+def wide_trace(npairs):
+    """More than a thousand streams with something pending at the same time (abandoned streams pile up), then traffic on new ones."""
+    Store = env.mods()['hh']._AdbPacketStore
+    s = Store()
+    tr = []
+
+    def proj():
+        return [{'a0': x['a0'], 'a1': x['a1'], 'q': [{'c': c, 'd': d} for c, d in x['q']]} for x in project(s)]
+    for j in range(1, npairs + 1):
+        s.put(7, j, b'WRTE', enc(1))
+        tr.append(dict(op='putq', a0=7, a1=j, c='WRTE', d=1))
+    # the last one with the full state, then new streams: packets parked for them must be retrievable
+    tr[-1] = dict(tr[-1], op='put', st=proj())
+    for j in range(npairs + 1, npairs + 6):
+        for d in (1, 2):
+            s.put(7, j, b'WRTE', enc(d))
+            tr.append(dict(op='putq', a0=7, a1=j, c='WRTE', d=d))
+        for d in (1, 2):
+            try:
+                c, a0, a1, dd = s.get(7, j)
+            except Exception as e:  # noqa
+                tr.append(dict(op='raised', what='get(7, %d): %r' % (j, e)))
+                return tr, [[7, k] for k in range(1, npairs + 7)]
+            tr.append(dict(op='getq', a0=7, a1=j, res=[a0, a1], c=c.decode(), d=dec(dd)))
+        tr.append(dict(op='len', n=len(s), st=proj()))
+    return tr, [[7, k] for k in range(1, npairs + 7)]
+
+
+def validate(ctx, traces, ids, label, expect_fail=False, keys=None):
     consts = {'Ids': '{' + ','.join(map(str, ids)) + '}', 'Cmds': '{"OKAY","WRTE","CLSE"}'}
-    ver, r = tlc.validate_traces('TraceStore', traces, constants=consts)
+    ver, r = tlc.validate_traces('TraceStore', traces, constants=consts, extra_data=dict(keys=keys) if keys else None)
     ctx.add_tlc(r, 'TraceStore ' + label)
     bad = [(i, l, v) for i, l, v in ver if v != 'ok']
     if expect_fail:
@@ -304,6 +347,9 @@ def body(ctx):
     for depth in ((300, 5000) if ctx.quick else (300, 1000, 5000, 20000)):
         deep.append(deep_trace(depth))
     validate(ctx, deep, [0, 1, 2], 'deep queues')
+    # wide: more than a thousand pairs with something pending
+    wt, wkeys = wide_trace(1100 if ctx.quick else 5000)
+    validate(ctx, [wt], [0, 1, 2], 'more than a thousand pending streams', keys=wkeys)
     ctx.sample(dict(kind='history', events=tr[0][:8]))
     # binding self-test: a corrupted history must be rejected
     import copy
